@@ -639,6 +639,20 @@ def _gen_view_op(r, root, path, m, name, sp, malformed):
         return _gen_meta_map_op(r, root, path, m, sp, malformed)
     else:
         return None
+    if name == 'raw_meta' and r.random() < 0.3:
+        # the raw mapping side: string keys on the raw view
+        keys = [x.key for x in w]
+        key = r.choice(keys) if keys and r.random() < 0.8 else r.choice(docs.KEYS)
+        bo = {'path': path, 'attr': 'raw_meta', 'parent': path, 'field': 'raw_meta'}
+        c = r.random()
+        if c < 0.4 and key in keys:
+            return {'k': 'delitem', 'kind': 'meta-delkey', 'idx': key, **bo}
+        if c < 0.8 and key in keys:
+            return {'k': 'call', 'kind': 'meta-popkey', 'm': 'pop', 'args': [{'t': 'lit', 'v': key}], **bo}
+        v = gen_value_for(r, models.MetaItem, indent=_indent_for(m, 'raw_meta') or '    ')
+        if v is not None and key in keys:
+            v = dict(v, k=key) if v.get('t') == 'meta' else v
+            return {'k': 'setitem', 'kind': 'meta-setkey', 'idx': key, 'val': v, **bo}
     c = r.random()
     if c < 0.2:
         v = mk()
